@@ -13,10 +13,18 @@ import (
 )
 
 const (
-	repoDir    = "/repo"
 	verifDir   = "/verif"
 	modulePath = "github.com/GuanceCloud/platypus"
 )
+
+// repoDir is /repo; GOSYM_REPO redirects a development run to a scratch worktree (used only to
+// try seeded changes without disturbing /repo; registered checks never set it).
+var repoDir = func() string {
+	if d := os.Getenv("GOSYM_REPO"); d != "" {
+		return d
+	}
+	return "/repo"
+}()
 
 // overlayFiles maps virtual paths under /repo to real harness files under /verif/harness.
 //
